@@ -22,11 +22,11 @@ Multi == [c \in Sub |-> IF c = "B" THEN "A" ELSE IF c = "C" THEN "B" ELSE "A"]
 \* for rst itself): configurations whose properties do not mention them
 \* identify states that differ in the reports only.
 CoreView == <<exists, gone, parent, hasp, ent, cstate, iss, sus, rc, rcv, req, routes,
-              pub, tasks, pubknown, napi>>
+              pub, tasks, pubknown, napi, taq, tar, taiss, tapub>>
 
 MCInit == Init /\ napi = 0
-MCNext == \/ napi < MaxApi /\ ApiNext /\ napi' = napi + 1
-          \/ TaskNext /\ napi' = napi
+MCNext == \/ napi < MaxApi /\ ApiNextF /\ napi' = napi + 1
+          \/ TaskNextF /\ napi' = napi
 MCSpec == MCInit /\ [][MCNext]_<<vars, napi>>
 
 \* the step property again, for the wrapped specification
